@@ -33,6 +33,7 @@ type World struct {
 	SignalTime       time.Duration
 	ReportedAtSignal int // len(Reported) when the signal was delivered
 
+	WindowSignal   os.Signal // delivered (as an environment choice) while the failed run's results are being written
 	Failed         bool // the second pool's provider has failed (the run fails by itself)
 	ReportedAtFail int  // len(Reported) at that moment
 
@@ -108,6 +109,14 @@ func (g *gun) Shoot(core.Ammo) {
 		select {
 		case <-time.After(w.ShotDur):
 		case <-g.deps.Ctx.Done():
+			// a shot cut short by the stop of a run that failed by itself: the process is now waiting for the
+			// results to be written out - an environment choice delivers a signal exactly here
+			if w.Failed && w.WindowSignal != nil && !w.Signalled && vs.Choose(2, "signal-while-awaiting-tasks") == 1 {
+				w.Signalled = true
+				w.SignalTime = time.Since(w.T0)
+				w.ReportedAtSignal = len(w.Reported)
+				vsignal.Deliver(w.WindowSignal)
+			}
 		}
 	}
 	s.SetProtoCode(200)
